@@ -43,6 +43,11 @@ pub fn run(ctx: &Ctx) -> bool {
         "C18" => c18::run(ctx),
         _ => return false,
     }
+    // the other arithmetic profile (overflow checks on) as a child process: always for the
+    // properties whose subject is arithmetic (C17; C18 does it itself), in the thorough tier for all
+    if ctx.prop != "C18" && (ctx.prop == "C17" || !ctx.quick()) {
+        run_other_profile(ctx);
+    }
     // Engine C: coverage-guided campaign over the same decoder and oracle (thorough tier)
     if !ctx.quick() {
         crate::fuzzapi::campaign(ctx, ctx.scale(0, 800_000));
@@ -75,4 +80,45 @@ pub fn replay(prop: &str, check: &str, payload: &serde_json::Value) -> Option<Ve
         "C18" => c18::replay(case),
         _ => return None,
     })
+}
+
+/// run the same check in the build with overflow checks and debug assertions on, merge its summary
+pub fn run_other_profile(ctx: &Ctx) {
+    if std::env::var("ACPIV_CHILD").is_ok() {
+        return;
+    }
+    let Ok(bin) = std::env::var("ACPIV_CHK_BIN") else {
+        ctx.note("overflow-checking build not exercised (ACPIV_CHK_BIN not set; use ./check)".into());
+        return;
+    };
+    if !std::path::Path::new(&bin).exists() {
+        ctx.note("overflow-checking build not exercised (chk binary missing)".into());
+        return;
+    }
+    let out = std::process::Command::new(&bin)
+        .args(["check", &ctx.prop, if ctx.quick() { "quick" } else { "thorough" }])
+        .env("ACPIV_CHILD", "1")
+        .env("ACPIV_NO_FUZZ", "1")
+        .env("ACPIV_SCALE", if ctx.quick() { "1" } else { "0.1" })
+        .env("VERIF_SEED", ctx.seed.to_string())
+        .env("ACPIV_ROOT", &ctx.root)
+        .output();
+    match out {
+        Ok(o) => {
+            let txt = String::from_utf8_lossy(&o.stdout);
+            match txt.lines().find_map(|l| l.strip_prefix("CHILD-SUMMARY ")) {
+                Some(js) => {
+                    let v: serde_json::Value = serde_json::from_str(js).unwrap_or(serde_json::json!({}));
+                    ctx.merge_child(&v);
+                    ctx.note("the build with overflow checks on ran the same check as a child process (its classes/engines are prefixed chk:)".into());
+                }
+                None => {
+                    ctx.report("child", serde_json::json!({}), vec![Violation::new(&ctx.prop, "harness", "harness-panic", "child run (chk profile) produced no summary".into(), crate::engine::trunc(txt.to_string(), 300))]);
+                }
+            }
+        }
+        Err(e) => {
+            ctx.report("child", serde_json::json!({}), vec![Violation::new(&ctx.prop, "harness", "harness-panic", format!("cannot run the chk binary: {}", e), String::new())]);
+        }
+    }
 }
